@@ -80,6 +80,9 @@ def run(tape, scenario):
             self.current = {}
             self.snapshots = {}     # tx payload -> (cycle index, model snapshot)
             self.finishing = False
+            self.stop_by_flag = tape.chance("c30/stopped-through-the-running-flag", 40)
+            self.last_k = None
+            self.sent = set()
             self.ncycles = 6 + tape.draw("c30/cycles", 25)
             ndev = 1 + tape.draw("c30/ndev", 3)
             per = [[] for _ in range(ndev)]
@@ -153,7 +156,13 @@ def run(tape, scenario):
                 self.finishing = True
                 if all(g.finishing for g in groups):
                     wf.loss = 0
-                asyncio.get_event_loop().call_soon(sg.task.cancel)
+                if self.stop_by_flag:
+                    # told to stop through its running flag (as a device that has put its
+                    # outputs into a safe state does): this last frame still goes out
+                    sg.running = False
+                    self.last_k = k
+                else:
+                    asyncio.get_event_loop().call_soon(sg.task.cancel)
             return out
 
         def judge_cycle(self, k, rec):
@@ -262,6 +271,9 @@ def run(tape, scenario):
         g = next((g for g in groups if g.sg.packet_index == idx), None)
         if g is None or len(g.cycles) < 1:
             return
+        snap = g.snapshots.get(bytes(frame[14:]))
+        if snap is not None:
+            g.sent.add(snap[0])
         bad = [(i, struct.unpack_from("<H", frame, 14 + d.wkc_pos)[0])
                for i, d in enumerate(dgrams)
                if struct.unpack_from("<H", frame, 14 + d.wkc_pos)[0] != 0]
@@ -280,6 +292,20 @@ def run(tape, scenario):
             tasks.append(g.sg.start())
             if two:
                 await asyncio.sleep([0, 2e-3, 7e-3][tape.draw("c30/stagger", 3)])
+            if two and g is groups[0] and tape.chance("c30/a-thousand-starts-in-between", 6):
+                # a long-lived program: while the first group lives, other groups of this
+                # process are started (and stopped again at once) a thousand times
+                from ebpfcat.ebpfcat import Device
+
+                class Idle(Device):
+                    def get_terminals(self):
+                        return {}
+
+                    def update(self):
+                        pass
+                for _ in range(999 - tape.draw("c30/starts-fewer", 3)):
+                    SyncGroup(ec, [Idle()]).start().cancel()
+                world.count("c30/a-thousand-group-starts-while-the-first-lives")
         done, pending = await asyncio.wait(tasks, timeout=4.0)
         for t in tasks:
             if t in pending:
@@ -289,6 +315,16 @@ def run(tape, scenario):
                 e = t.exception()
                 outcome.append(f"{type(e).__name__}: {e}")
         await asyncio.sleep(0.01)
+        for g in groups:
+            if g.stop_by_flag and g.last_k is not None and g.last_k not in g.sent \
+                    and not outcome:
+                viol("outputs-not-in-next-frame",
+                     f"group {g.gi}: told to stop through its running flag in cycle "
+                     f"{g.last_k}; the frame with the outputs set in that cycle was never "
+                     f"sent (cycles whose frames went out: {sorted(g.sent)[-4:]})",
+                     stopped_by_flag=True)
+            if g.stop_by_flag:
+                world.count("c30/group-stopped-through-the-running-flag")
         if not outcome and not violations and tape.chance("c30/second-session", 35):
             # the same groups and devices started again after they were stopped: start()
             # makes a fresh frame buffer, the outputs begin at zero again
@@ -298,6 +334,8 @@ def run(tape, scenario):
             for g in groups:
                 g.first_session = len(g.cycles)
                 g.cycles, g.snapshots, g.finishing = [], {}, False
+                g.sg.running = True
+                g.last_k, g.sent = None, set()
                 g.ncycles = 4 + tape.draw("c30/cycles-2", 10)
                 for t in g.rw:
                     model[t][:] = bytes(len(model[t]))
